@@ -138,8 +138,9 @@ def div(op, input, other):
     if not isinstance(input, QBytesTensor) or not is_scalar(other):
         # Only the division of a quantized tensor by a scalar can be applied to the scale
         return qfallback(op, input, other)
-    # We just divide the scale
-    return QBytesTensor(input.qtype, input.axis, input.size(), input.stride(), input._data, op(input._scale, other))
+    # We just divide the scale (that keeps its dtype, as a Tensor divided by a scalar does)
+    out_scale = op(input._scale, other).to(input._scale.dtype)
+    return QBytesTensor(input.qtype, input.axis, input.size(), input.stride(), input._data, out_scale)
 
 
 @register_qbytestensor_op([torch.ops.aten.neg])
@@ -229,10 +230,13 @@ def mm(op, input, other):
 @register_qbytestensor_op([torch.ops.aten.mul])
 def mul(op, input, other):
     # If one of the multiplicands is a scalar, just multiply the scale
-    if is_scalar(input):
-        return QBytesTensor(other.qtype, other.axis, other.size(), other.stride(), other._data, input * other._scale)
-    if is_scalar(other):
-        return QBytesTensor(input.qtype, input.axis, input.size(), input.stride(), input._data, other * input._scale)
+    # (the scale keeps its dtype, as a Tensor multiplied by a scalar does)
+    if is_scalar(input) and isinstance(other, QBytesTensor):
+        out_scale = (input * other._scale).to(other._scale.dtype)
+        return QBytesTensor(other.qtype, other.axis, other.size(), other.stride(), other._data, out_scale)
+    if is_scalar(other) and isinstance(input, QBytesTensor):
+        out_scale = (other * input._scale).to(input._scale.dtype)
+        return QBytesTensor(input.qtype, input.axis, input.size(), input.stride(), input._data, out_scale)
     return qfallback(op, input, other)
 
 
